@@ -109,6 +109,7 @@ theorem handlers_pinned : handlerDigests = [
   ("StateMachine.getParams", "c3db6b6c31e7"),
   ("StateMachine.setParams", "eb648b67f145"),
   ("StateMachine.NewStateFromGenesis", "5763878c29b7"),
+  ("StateMachine.SetOrderBooks", "3cb6b86e1ec2"),
   ("StateMachine.ValidateGenesisState", "c043cbcf30d7"),
   ("StateMachine.ApplyTransaction", "0ba980da3e7f"),
   ("checkCommittees", "475aa0886a0a"),
@@ -142,11 +143,30 @@ theorem balances_below_2_64 {L : Ledger} (h : InvSupply L) (a : Addr) (id : Nat)
 /-- a genesis accepted by the loader (`ValidateGenesisState` + `NewStateFromGenesis`, amounts being `uint64`)
 satisfies the invariant -/
 theorem inv_genesis {cfg : Config} {params : Params} {accounts : List (Addr × Nat)} {pools : List (Nat × Nat)}
-    {vals : List GenesisValidator} {retired : List Nat} {L : Ledger}
+    {vals : List GenesisValidator} {retired : List Nat} {books : List GenesisBook} {L : Ledger}
     (ha : ∀ e ∈ accounts, e.2 < 2 ^ 64) (hp : ∀ e ∈ pools, e.2 < 2 ^ 64) (hv : ∀ g ∈ vals, g.val.stake < 2 ^ 64)
-    (h : genesis cfg params accounts pools vals retired = .ok L) : InvSupply L :=
+    (ho : ∀ b ∈ books, ∀ x ∈ b.2, x < 2 ^ 64)
+    (h : genesis cfg params accounts pools vals retired books = .ok L) : InvSupply L :=
   genesis_invSupply (fun e he => by have := ha e he; unfold MAXU; omega) (fun e he => by have := hp e he; unfold MAXU; omega)
-    (fun g hg => by have := hv g hg; unfold MAXU; omega) h
+    (fun g hg => by have := hv g hg; unfold MAXU; omega) (fun b hb x hx => by have := ho b hb x hx; unfold MAXU; omega) h
+
+/-- the order of the state-writing steps of `NewStateFromGenesis`, as regenerated from the source on this run. The
+model's `genesis` composes them in this order, and the order matters: `SetPools` OVERWRITES a listed pool (and counts
+its amount), `SetOrderBooks` ADDS every open sell order's amount to the chain's escrow pool (and counts it) — so a
+genesis that lists an escrow pool AND an order book for that chain (what `ExportState` produces) is only loaded
+consistently with the pools first. -/
+theorem genesis_steps_pinned : genesisSteps =
+    ["SetParams", "SetAccounts", "SetPools", "SetValidators", "SetOrderBooks", "SetSupply", "SetRetiredCommittees"] := by decide
+
+/-- why the order matters (seeded change pending4-C04, Go scenario `export-then-import`): an escrow pool listed with
+200 tokens next to two open orders of 120 + 80 on chain 1. Pools first (the code): the pool holds 400, the total
+counts 400. Order books first (`genesisBooksBeforePools`): the listed amount overwrites the credit, the pool holds 200,
+the total still counts 400 — the supply identity is broken from the first block on. -/
+theorem genesis_order_books_after_pools :
+    ((genesis {} {} [] [(1 + escrowPoolAddend, 200)] [] [] [(1, [120, 80])]).toOption.map fun L => (L.pools, L.supply.total, decide (InvSupply L)))
+      = some ([(1 + escrowPoolAddend, 400)], 400, true) ∧
+    ((genesisBooksBeforePools {} {} [] [(1 + escrowPoolAddend, 200)] [] [] [(1, [120, 80])]).toOption.map fun L => (L.pools, L.supply.total, decide (InvSupply L)))
+      = some ([(1 + escrowPoolAddend, 200)], 400, false) := by decide
 
 /-- the loader rejects a genesis that lists an account twice (the hypothesis under which `inv_genesis` would fail
 otherwise: the record is written once but counted twice) -/
@@ -252,10 +272,11 @@ theorem inv_reachable {L₀ L : Ledger} (h0 : Inv L₀) (hr : Reachable L₀ L) 
 /-- … in particular from every accepted genesis: after any sequence of successful operations the recorded total is the
 exact sum of all balances and stakes -/
 theorem supply_conserved_from_genesis {cfg : Config} {params : Params} {accounts : List (Addr × Nat)} {pools : List (Nat × Nat)}
-    {vals : List GenesisValidator} {retired : List Nat} {L₀ L : Ledger}
+    {vals : List GenesisValidator} {retired : List Nat} {books : List GenesisBook} {L₀ L : Ledger}
     (ha : ∀ e ∈ accounts, e.2 < 2 ^ 64) (hp : ∀ e ∈ pools, e.2 < 2 ^ 64) (hv : ∀ g ∈ vals, g.val.stake < 2 ^ 64)
-    (hg : genesis cfg params accounts pools vals retired = .ok L₀) (hr : Reachable L₀ L) : InvSupply L :=
-  (inv_reachable ⟨inv_genesis ha hp hv hg, genesis_percentsOK hg⟩ hr).1
+    (ho : ∀ b ∈ books, ∀ x ∈ b.2, x < 2 ^ 64)
+    (hg : genesis cfg params accounts pools vals retired books = .ok L₀) (hr : Reachable L₀ L) : InvSupply L :=
+  (inv_reachable ⟨inv_genesis ha hp hv ho hg, genesis_percentsOK hg⟩ hr).1
 
 /-! ## F5: the excluded point -/
 
